@@ -2039,9 +2039,22 @@ Section SkelSmall.
   Lemma sem_isvalid_sk_eq : forall d o t e, gen d o = Built t -> sem_isvalid_sk k t e = sem_isvalid t e.
   Proof.
     intros d o t e Hg. destruct small_facts as [_ [_ [_ [_ [_ [_ [_ [Hi _]]]]]]]].
-    unfold sem_isvalid_sk, sem_isvalid. rewrite Hi, sem_values_sk_eq. cbn [vs_list].
+    unfold sem_isvalid_sk, sem_isvalid_tbl, sem_isvalid. rewrite Hi, sem_values_sk_eq. cbn [vs_list].
     destruct (gen_built d o t Hg) as [Hall [_ [_ [_ [Hb _]]]]].
     rewrite Hb, Hall, sort_values_length. destruct (Nat.ltb 15 (length (d_consts d))); reflexivity.
+  Qed.
+
+  (* history independence of the generated API: whatever callers wrote into the slices that Values() and
+     StringValues() handed out earlier, later calls return and decide the same (the slices are fresh copies) *)
+  Lemma table_after_fresh : forall tb h, table_after k tb h = tb.
+  Proof.
+    intros tb h. destruct small_facts as [_ [_ [_ [_ [Hv _]]]]]. unfold table_after. rewrite Hv.
+    revert tb. induction h as [|ev r IH]; intros tb; simpl; [reflexivity|]. destruct ev; apply IH.
+  Qed.
+  Lemma history_independent : forall t h,
+    sem_values_hist k t h = sem_values_sk k t /\ forall e, sem_isvalid_hist k t h e = sem_isvalid_sk k t e.
+  Proof.
+    intros t h. unfold sem_values_hist, sem_isvalid_hist, sem_isvalid_sk. rewrite table_after_fresh. split; reflexivity.
   Qed.
 End SkelSmall.
 
@@ -2086,3 +2099,20 @@ Proof.
 Qed.
 Lemma skel_accessor : forall k, skels_ok k = true -> forall c e, sem_accessor_sk k c e = sem_accessor c e.
 Proof. intros k Hk c e. apply sem_accessor_sk_eq. assumption. Qed.
+
+(* a Values() that returns the table itself (seeded change C04-32) is not history independent: after a caller
+   reversed its result, the next Values() is descending and the binary search of IsValid misses defined values *)
+Definition alias_skels : skels :=
+  {| sk_json := sk_json cur_skels; sk_text := sk_text cur_skels; sk_yaml := sk_yaml cur_skels;
+     sk_enc_json := sk_enc_json cur_skels; sk_enc_text := sk_enc_text cur_skels; sk_enc_yaml := sk_enc_yaml cur_skels;
+     sk_enc_gates := sk_enc_gates cur_skels; sk_parse := sk_parse cur_skels; sk_parse_gates := sk_parse_gates cur_skels;
+     sk_parsestring := true; sk_parsegeneric := true;
+     sk_table := sk_table cur_skels; sk_values := ValAliasOfTable; sk_stringvalues := sk_stringvalues cur_skels;
+     sk_string := sk_string cur_skels; sk_isvalid := sk_isvalid cur_skels; sk_accessor := sk_accessor cur_skels;
+     sk_plain_gates := sk_plain_gates cur_skels; sk_accessor_gates := sk_accessor_gates cur_skels |}.
+Lemma alias_not_history_independent :
+  skels_ok alias_skels = false
+  /\ exists t, gen yw_defn yw_opts = Built t
+       /\ sem_values_hist alias_skels t [HWriteValues 0 2; HWriteValues 2 0] = [2; 1; 0]
+       /\ sem_values_hist cur_skels t [HWriteValues 0 2; HWriteValues 2 0] = [0; 1; 2].
+Proof. split; [vm_compute; reflexivity|]. eexists. split; [vm_compute; reflexivity|]. vm_compute. split; reflexivity. Qed.
